@@ -1,6 +1,6 @@
 From Coq Require Import Extraction ExtrOcamlBasic ZArith List.
-From LP Require Import Num Gen_C17_Formulas C17_Model.
+From LP Require Import Num Gen_C17_Formulas Gen_C17_More C17_Model.
 Extraction Language OCaml.
 Extraction "C17_m.ml" g_Sign g_Sign2 g_StepFunction g_Relative_Difference g_Floats_Equal
-  g_VSH_Y_Component g_VSH_Psi_Component round round_list round_table round_run dawson erfi inv_erf_lib
+  g_VSH_Y_Component g_VSH_Psi_Component g_Round g_Dawson_Integral g_Erfi g_Inv_Erf find_root round round_list round_table round_run dawson erfi inv_erf_lib
   vector_spherical_harmonics_Y vector_spherical_harmonics_Psi vsh_run_x special_run daw_table0 Z.of_nat Z.to_nat.
